@@ -892,6 +892,15 @@ impl UninitBreakpoint {
         )
     }
 
+    /// True if the object file with this breakpoint is not loaded into the debugee now.
+    fn object_is_missing(&self, debugee: &Debugee) -> bool {
+        self.r#type == BrkptType::UserDefined
+            && self
+                .debug_info_file
+                .as_ref()
+                .is_some_and(|path| debugee.debug_info_from_file(path).is_err())
+    }
+
     /// Return a breakpoint created from template.
     ///
     /// # Panics
@@ -1149,7 +1158,13 @@ impl BreakpointRegistry {
     pub fn enable_all_breakpoints(&mut self, debugee: &Debugee) -> Vec<Error> {
         let mut errors = vec![];
         let mut disabled_breakpoints = mem::take(&mut self.disabled_breakpoints);
-        for (_, uninit_brkpt) in disabled_breakpoints.drain() {
+        for (addr, uninit_brkpt) in disabled_breakpoints.drain() {
+            // a breakpoint inside a shared library that is not loaded (yet) waits for this library
+            if uninit_brkpt.object_is_missing(debugee) {
+                self.disabled_breakpoints.insert(addr, uninit_brkpt);
+                continue;
+            }
+
             let brkpt = match uninit_brkpt.try_into_brkpt(debugee) {
                 Ok(b) => b,
                 Err(e) => {
@@ -1163,6 +1178,36 @@ impl BreakpointRegistry {
             }
         }
         errors
+    }
+
+    /// Park user breakpoints whose object is not mapped anymore (a shared library was unloaded).
+    /// Their patches are gone together with the mapping, so there is nothing to restore in the
+    /// debugee memory. Parked breakpoints wait in the disabled list until the library appears
+    /// again, see [`BreakpointRegistry::enable_all_breakpoints`].
+    pub fn park_unmapped_breakpoints(&mut self, debugee: &Debugee) {
+        let unmapped: Vec<_> = self
+            .breakpoints
+            .iter()
+            .filter(|(_, brkpt)| {
+                brkpt.r#type == BrkptType::UserDefined
+                    && brkpt.place.is_some()
+                    && brkpt.addr.into_global(debugee).is_err()
+            })
+            .map(|(addr, _)| *addr)
+            .collect();
+
+        for addr in unmapped {
+            let Some(brkpt) = self.breakpoints.remove(&addr) else {
+                continue;
+            };
+            let Some(global_addr) = brkpt.place.as_ref().map(|place| place.address) else {
+                continue;
+            };
+            self.add_uninit(UninitBreakpoint::new_inherited(
+                Address::Global(global_addr),
+                brkpt,
+            ));
+        }
     }
 
     /// Enable entry point breakpoint if it disabled.
